@@ -106,6 +106,9 @@ class CylindricalSymGrid(GridBase):
             msg = "Lower and upper value of the axial coordinate must be specified"
             raise ValueError(msg)
         bounds_z = tuple(float(b) for b in bounds_z)  # type: ignore
+        if not bounds_z[0] < bounds_z[1]:
+            msg = "Upper bound of the axial coordinate must be larger than lower bound"
+            raise ValueError(msg)
         self._periodic_z: bool = bool(periodic_z)  # might cast from np.bool_
         self._periodic = [False, self._periodic_z]
 
